@@ -50,9 +50,26 @@ type C10Case struct {
 	// containers - a new one and the package-level DefaultContainer as init() built it: recovery
 	// is off, a panic reaches the caller unchanged
 	Defaults bool `json:"defaults,omitempty"`
+	// NilErr: the panic value is an error interface around a nil pointer whose Error method
+	// dereferences it (the typed-nil slip); a value like any other to whoever passes it on
+	NilErr bool `json:"nil_err,omitempty"`
 }
 
 type panicToken struct{ pos string }
+
+type nilErr struct{ msg string }
+
+func (e *nilErr) Error() string { return e.msg }
+
+// isPanicValue tells whether v is the value the generated panic raised at pos.
+func isPanicValue(c C10Case, v interface{}, pos string) bool {
+	if c.NilErr {
+		ne, ok := v.(*nilErr)
+		return ok && ne == nil
+	}
+	tok, ok := v.(*panicToken)
+	return ok && tok.pos == pos
+}
 
 func genC10Filters(t *rapid.T, prefix string) []c10Filter {
 	n := rapid.IntRange(0, 2).Draw(t, prefix+"n")
@@ -109,6 +126,7 @@ func genC10(t *rapid.T) C10Case {
 			c.Tail = append(c.Tail, "")
 		}
 	}
+	c.NilErr = rapid.IntRange(0, 5).Draw(t, "nilerr") == 0
 	return c
 }
 
@@ -151,6 +169,10 @@ func buildC10(c C10Case) *c10Env {
 	}
 	maybePanic := func(req *http.Request, pos string) {
 		if h := req.Header.Get(c10PanicHeader); h == pos || h == "404/"+pos {
+			if c.NilErr {
+				var ne *nilErr
+				panic(error(ne))
+			}
 			panic(&panicToken{h})
 		}
 	}
@@ -305,11 +327,11 @@ func (e *c10Env) judge(c C10Case, pos, where string) (vs []*Violation) {
 	}
 	libraryPanic := pos == "h:handle-twice"
 	if c.Recovery == "off" {
-		tok, ok := r.escaped.(*panicToken)
+		ok := isPanicValue(c, r.escaped, pos)
 		if libraryPanic {
-			ok, tok = r.escaped != nil, &panicToken{pos}
+			ok = r.escaped != nil
 		}
-		if !ok || tok.pos != pos {
+		if !ok {
 			vs = append(vs, viol("", "%s: recovery is off, the caller must see the panic value unchanged; got %v", where, r.escaped))
 		}
 		return vs
@@ -324,7 +346,7 @@ func (e *c10Env) judge(c C10Case, pos, where string) (vs []*Violation) {
 		if e.recCalls != 1 {
 			vs = append(vs, viol("", "%s: the recover handler ran %d times", where, e.recCalls))
 		}
-		if tok, ok := e.recValue.(*panicToken); !libraryPanic && (!ok || tok.pos != pos) {
+		if !libraryPanic && !isPanicValue(c, e.recValue, pos) {
 			vs = append(vs, viol("", "%s: the recover handler received %v, not the panic value", where, e.recValue))
 		}
 		want := append(before, e.customBody...)
